@@ -333,7 +333,7 @@ def rewrite_histories(uni):
 
 def systematic_histories(uni):
     """every ordered pair of loads (incl. no path), followed by two classifications"""
-    names = sorted(uni['files']) + [None]
+    names = [n for n in ('A', 'A2', 'B', 'C', 'D') if n in uni['files']] + [None]
     out = []
     for a in names:
         for b in names:
@@ -352,11 +352,17 @@ def run_history(uni, hist, last_only=False):
     return run_impl(IMPL, {'universe': uni, 'history': hist, 'last_only': last_only}, timeout=120)['results']
 
 
-def replay_prefix(hist):
-    """The fresh process replays only the last load and the last engine.parse (Model.replay_prefix)."""
-    ll = next((o for o in reversed(hist) if o['op'] == 'load'), None)
-    lp = next((o for o in reversed(hist) if o['op'] == 'engparse'), None)
-    return ([ll] if ll else []) + ([lp] if lp else [])
+def replay_prefix(hist, op=None):
+    """What the fresh process replays before `op` (Model.relevant_prefix): nothing for a load, an engine.parse or an
+    expression evaluation; only the last load for a classification; only the last engine.parse for engine.match."""
+    kind = op['op'] if op else None
+    if kind == 'classify':
+        ll = next((o for o in reversed(hist) if o['op'] == 'load'), None)
+        return [ll] if ll else []
+    if kind == 'engmatch':
+        lp = next((o for o in reversed(hist) if o['op'] == 'engparse'), None)
+        return [lp] if lp else []
+    return []
 
 
 class Fresh:
@@ -458,7 +464,7 @@ def check_history(uni, hist, res, fresh):
     process or a frame snapshot changed."""
     bad = []
     for i, o in enumerate(hist):
-        fr = fresh.get(replay_prefix(hist[:i]), o)
+        fr = fresh.get(replay_prefix(hist[:i], o), o)
         if differs(res[i], fr) or res[i]['frame'] or res[i].get('lost'):
             bad.append((i, signature(uni, hist, i, res, fresh)))
     return bad
@@ -487,8 +493,8 @@ def fails_with(uni, hist, sig, pool):
     fresh.need([([], {'op': 'load', 'file': n}) for n in uni['files']], pool)
     res = run_history(uni, hist)
     i = len(hist) - 1
-    fresh.need([(replay_prefix(hist[:i]), hist[i])], pool)
-    fr = fresh.get(replay_prefix(hist[:i]), hist[i])
+    fresh.need([(replay_prefix(hist[:i], hist[i]), hist[i])], pool)
+    fr = fresh.get(replay_prefix(hist[:i], hist[i]), hist[i])
     if not (differs(res[i], fr) or res[i]['frame'] or res[i].get('lost')):
         return False
     return signature(uni, hist, i, res, fresh) == sig
@@ -747,8 +753,10 @@ def main(tier):
         'tested/added-to only inside _report_rules_load_error, which returns nothing, prints to sys.stderr only, and is called only as an '
         'expression statement in except handlers - so it cannot reach any compared output; the differential runs cover loads of the same '
         'unparsable file repeated in one process',
-        'cached ASTs / compiled patterns are treated as immutable values; cache keys are str; file content does not change '
-        'between a load and the classifications that use it; set/dict order, object identities and message texts are not compared',
+        'a rule FILE in the model is its content (+ match mode); the path only names where it lives: every .rules load of a process is '
+        'written to one and the same path (likewise every CSV load), so a reload after a rewrite is the normal case; file content does '
+        'not change between the calls of ONE load (get_transforms / get_tag_only_rules / get_all_rules, either order)',
+        'cached ASTs / compiled patterns are treated as immutable values; cache keys are str; set/dict order, object identities and message texts are not compared',
     ]
     tfails = regen_gen()
     res = run.proof_step(COQ_FILES, extra_trusted=[
@@ -780,7 +788,7 @@ def main(tier):
                                     'variant for which c07_before_e98b1f7_refuted holds'})
 
     rnd = random.Random(run.seed * 7919 + 7)
-    n_uni, n_hist, n_sys, n_twin = (12, 10, 2, 3) if tier == 'quick' else (120, 36, 24, 10)
+    n_uni, n_hist, n_sys, n_twin = (12, 8, 2, 3) if tier == 'quick' else (120, 36, 24, 10)
     unis = [gen_universe(rnd, i) for i in range(n_uni)]
     all_hists = []
     for i, u in enumerate(unis):
@@ -806,7 +814,7 @@ def main(tier):
         reqs = []
         for h in hs:
             for i, o in enumerate(h):
-                reqs.append((replay_prefix(h[:i]), o))
+                reqs.append((replay_prefix(h[:i], o), o))
         fr.need(reqs, pool)
         for hi, (h, r) in enumerate(zip(hs, results)):
             n_cmp += len(h)
@@ -856,11 +864,11 @@ def main(tier):
         small = shrink(u, h, pos, sig, pool, budget=30 if tier == 'quick' else 120)
         u2, h2 = prune(u, small)
         r2 = run_history(u2, h2)
-        f2 = run_history(u2, replay_prefix(h2[:-1]) + [h2[-1]], True)[0]
+        f2 = run_history(u2, replay_prefix(h2[:-1], h2[-1]) + [h2[-1]], True)[0]
         run.violation('history', {
             'kind': 'counterexample', 'universe': u2, 'history': h2, 'position': len(h2) - 1,
             'observed_in_process': r2[-1]['out'], 'frame_changes': r2[-1]['frame'],
-            'expected_fresh_process': f2['out'], 'fresh_history': replay_prefix(h2[:-1]) + [h2[-1]],
+            'expected_fresh_process': f2['out'], 'fresh_history': replay_prefix(h2[:-1], h2[-1]) + [h2[-1]],
             'obligation': 'c07_history_independent / c07_classify_frame on the implementation',
             'n_failing_comparisons': len(where), 'shrunk_from': pos + 1, 'broken': broken}, signature=sig)
 
@@ -903,7 +911,10 @@ def main(tier):
                 '(transaction or view expression), engine.parse, engine.match} over generated universes of 3-4 rule files (.rules, CSV, '
                 'one unparsable .rules; overlapping patterns, different categories, case/whitespace twins of expressions and regexes, '
                 'top-level variables, transforms, let/field, dynamic tags, supplemental rows) and 4-6 transactions, plus probes (an expression then '
-                'its case twin; one engine parsed twice then matched; every ordered pair of loads for the first universes); every operation is '
+                'its case twin; one engine parsed twice then matched; a transaction on which a top-level variable raises first; the SAME path '
+                'rewritten with other transforms / tag-only rules / match mode / deleted and reloaded in the CLI order get_transforms -> '
+                'get_tag_only_rules -> get_all_rules; a dynamic tag taking different values on one load; every ordered pair of loads for the '
+                'first universes); every operation is '
                 'compared with a fresh interpreter (one subprocess per distinct (replayed last load, operation)); non-trivial = distinct histories loading >= 2 different files',
         'samples': [{'universe_files': unis[0]['files'], 'history': all_hists[0][0]}, {'history': all_hists[-1][-1]}],
         'universes': len(unis), 'histories': sum(map(len, all_hists)), 'in_process_vs_fresh_comparisons': n_cmp,
@@ -931,12 +942,12 @@ def replay(path):
     fresh = Fresh(uni)
     fresh.need([([], {'op': 'load', 'file': n}) for n in list(uni['files']) + [None]], pool)
     res = run_history(uni, hist)
-    fresh.need([(replay_prefix(hist[:i]), o) for i, o in enumerate(hist)], pool)
+    fresh.need([(replay_prefix(hist[:i], o), o) for i, o in enumerate(hist)], pool)
     bad = check_history(uni, hist, res, fresh)
     for i, sig in bad:
         print(json.dumps({'position': i, 'operation': hist[i], 'signature': sig, 'in_process': res[i]['out'],
                           'frame_changes': res[i]['frame'],
-                          'fresh_process': fresh.get(replay_prefix(hist[:i]), hist[i])['out']}, indent=1))
+                          'fresh_process': fresh.get(replay_prefix(hist[:i], hist[i]), hist[i])['out']}, indent=1))
     shutil.rmtree(WORKDIR, ignore_errors=True)
     if bad:
         print(f'VIOLATION property=C07 replay={path}')
